@@ -39,6 +39,12 @@ CONFIGS = [
     ("cma1pl", "cma1pl", {}, "(1+lambda)-CMA"),
     ("mocma", "mocma", {"lambda_": 6}, "MO-CMA-ES"),
     ("mocma_l3", "mocma", {"lambda_": 3}, "MO-CMA-ES (lambda != mu)"),
+    ("es", "es", {}, "GA on lists (evolution strategy, array individuals with a strategy attribute)"),
+    ("islands", "islands", {}, "GA on lists (three demes, tools.migRing)"),
+    ("ea_simple", "ealoops", {"loop": "simple"}, "GA on lists (algorithms.eaSimple, one call per generation)"),
+    ("ea_plus", "ealoops", {"loop": "plus"}, "GA on lists (algorithms.eaMuPlusLambda)"),
+    ("ea_comma", "ealoops", {"loop": "comma"}, "GA on lists (algorithms.eaMuCommaLambda)"),
+    ("ea_genupd", "ealoops", {"loop": "genupd"}, "CMA-ES (algorithms.eaGenerateUpdate)"),
 ]
 
 
@@ -73,12 +79,16 @@ class Jobs(object):
         env["OMP_NUM_THREADS"] = "1"
         env["OPENBLAS_NUM_THREADS"] = "1"
         env["MKL_NUM_THREADS"] = "1"
-        try:
-            p = subprocess.run(["timeout", str(timeout), sys.executable, FAMPY, sp], env=env, cwd=os.path.dirname(sp),
-                               stdout=subprocess.PIPE, stderr=subprocess.STDOUT, text=True)
-            rc, log = p.returncode, p.stdout[-2000:]
-        except Exception as e:   # noqa
-            rc, log = -1, repr(e)
+        rc, log = -1, ""
+        for attempt in (1, 2):      # a second attempt only if the process produced no result file at all (killed / timed out)
+            try:
+                p = subprocess.run(["timeout", str(timeout), sys.executable, FAMPY, sp], env=env, cwd=os.path.dirname(sp),
+                                   stdout=subprocess.PIPE, stderr=subprocess.STDOUT, text=True)
+                rc, log = p.returncode, p.stdout[-2000:]
+            except Exception as e:   # noqa
+                rc, log = -1, repr(e)
+            if os.path.exists(spec["out"]):
+                break
         res = None
         if os.path.exists(spec["out"]):
             try:
@@ -127,12 +137,10 @@ def text_diff(a, b, width=160):
     return {"at": i, "reference": a[lo:i + width], "observed": b[lo:i + width]}
 
 
-# the C16 pickling defects (DESIGN section 5/6, C16): array-backed individuals below protocol 3, GP trees below 2
+# The C16 pickling defects (array-backed individuals below protocol 3, GP trees below protocol 2) were repaired in
+# /repo by the C16 worker (commits 40d1650, c8db131) before this check was finished, so nothing is tolerated:
+# a checkpoint that cannot be written or read with some protocol 0..5 is a violation of "every pickle protocol".
 def is_c16_pickle_issue(cfg, protocol, msg):
-    if cfg == "ga_array" and protocol <= 2 and "TypeError" in msg:
-        return True
-    if cfg.startswith("gp") and protocol <= 1 and ("TypeError" in msg or "slots" in msg):
-        return True
     return False
 
 
@@ -147,6 +155,13 @@ def runtime_part(run, jobs):
     configs = [c for c in CONFIGS if not only or c[0] in only.split(",")]
     ckroot = os.path.join(jobs.dir, "ck")
 
+    # operator sweep: representation x selection x crossover x mutation x loop, drawn from the run's generator
+    import c17_families_ops as ops
+    configs = list(configs)
+    if not only or "ga_ops" in only.split(","):
+        for j in range(run.scale(3, 24)):
+            prm = ops.draw(rng)
+            configs.append(("ga_ops", "ga_ops", prm, "GA on lists (operator sweep %s)" % "/".join(str(prm[k]) for k in sorted(prm))))
     plan = []
     primary = {"ga", "nsga2", "spea2", "nsga3", "gp", "cma", "cma1pl", "mocma"}
     for (cfg, fam, params, label) in configs:
@@ -164,8 +179,9 @@ def runtime_part(run, jobs):
                              for k in range(0, ngen + 1)}
             ws = pool_workers or sorted(rng.sample(range(1, 9), 3))
             entry["pool"] = []
+            allkinds = ["mp", "cf", "mp_imap", "cf_thread"]
             for w in ws:
-                kinds = ["mp", "cf", "mp_imap"] if thorough else [rng.choice(["mp", "cf", "mp_imap"])]
+                kinds = [allkinds[(w + si) % 4], allkinds[(w + si + 1) % 4]] if thorough else [rng.choice(allkinds[:3])]
                 for kind in kinds:
                     ds = rng.randrange(10 ** 6)
                     sched = {"workers": w, "pool_kind": kind, "delay_seed": ds}
@@ -212,6 +228,8 @@ def runtime_part(run, jobs):
             final_differs = any(bmap(ref)[ngen]["sha"][c] != bmap(other).get(ngen, {"sha": {}})["sha"].get(c)
                                 for c in COMPONENTS[:4]) if other["boundaries"] else True
             obs["final_state_differs"] = final_differs
+            obs["replay_history"] = ("cd /verif && VERIF_REPO=%s /venv/bin/python harness/c17_replay.py '%s'"
+                                     % (vlib.REPO, json.dumps({k: v for k, v in case.items() if k != "completion_orders"})))
             run.oracle_violation(what, case, observed=obs)
 
         # (a) fresh interpreter again (other hash seed / other allocation history)
